@@ -53,7 +53,7 @@ def gen_long_undated(rng):
 def gen_scenario(rng, tier):
     if rng.random() < 0.01:
         return gen_long_undated(rng)
-    kind = rng.choice(['std', 'std', 'multi', 'derived'])
+    kind = rng.choice(['std', 'std', 'multi', 'derived', 'subbrk', 'frac'])
     n = rng.choice([0, 1, 2, 4, 7, 12, 25, 50])
     content, times = K.gen_log(rng, n, kind, ordered=rng.random() < 0.4,
                                undated=rng.choice([0.1, 0.3, 0.6]), longs=0.1,
@@ -61,7 +61,9 @@ def gen_scenario(rng, tier):
     ncons = rng.choice([1, 1, 2, 3])
     cons = []
     for _ in range(ncons):
-        ck = kind if rng.random() < 0.8 else rng.choice(['std', 'multi', 'derived'])
+        # (subbrk is a SUBCLASS of the std matcher with other patterns: each matcher class
+        # reads lines by its own patterns whichever class was used first)
+        ck = kind if rng.random() < 0.8 else rng.choice(['std', 'multi', 'derived', 'subbrk'])
         cons.append(K.gen_since(rng, times, ck))
     defs = []
     for _ in range(rng.choice([1, 2, 3, 5])):
